@@ -129,3 +129,11 @@ def _streams(ctx, R):
 
 
 RULES.append(("C14.STREAMS", "what `run` writes to its first writer reaches the process's standard output, its second the standard error (shared with C01.STREAMS)", _streams))
+
+
+# rules of other properties re-run under this property's name; resolved by rules/main.py once every module can be
+# imported (the owners import this module themselves)
+DEFERRED_BUNDLES = [
+    {'prop': 'C14', 'tag': 'INT', 'module': 'p_c05', 'only': ('CTOR', 'CONSTS', 'SIGN', 'NORMALISE'), 'skip': (), 'why': 'code points travel as numbers'},
+    {'prop': 'C14', 'tag': 'LEVELS', 'module': 'p_c02', 'only': ('ROLLBACK', 'SIB', 'CAPTURE', 'WINDOW', 'SLOTS'), 'skip': (), 'why': 'the same text must come out at every level'},
+]
